@@ -85,8 +85,10 @@ class Ctx:
         for i in self.instances:
             if i.verdict != "info":
                 counts[i.rule] = counts.get(i.rule, 0) + 1
+        # floors guard against vacuous passes; a run that already found violations is not a pass
+        any_violation = any(i.verdict == "violation" for i in self.instances)
         for rule, minimum in floor.items():
-            if counts.get(rule, 0) < minimum:
+            if not any_violation and counts.get(rule, 0) < minimum:
                 raise AnalysisError(
                     f"rule {rule} matched {counts.get(rule, 0)} instances, below the hand-confirmed floor {minimum}"
                 )
